@@ -222,4 +222,14 @@ theorem nodeToStream_spec (values : List Tree) (w : Writer)
       simp [h, Writer.adv_adv]
     · cases he
 
+/-- `node_to_bytes_limit` in closed form -/
+theorem nodeToBytesLimit_spec (t : Tree) (ht : t.atomsBelow (2 ^ 34)) (L : Nat) :
+    nodeToBytesLimit t L =
+      if (serSpec t).length ≤ L then .ok (serSpec t) else .error .OutOfMemory := by
+  unfold nodeToBytesLimit
+  rw [nodeToStream_spec [t] _ (by simpa using ht)]
+  by_cases h : (serSpec t).length ≤ L
+  · simp [Writer.fits, Writer.adv, serList, h]
+  · simp [Writer.fits, serList, h]
+
 end Clvm.Serde.Classic
